@@ -1,8 +1,9 @@
 """C06: closed-world inventories that the purity/determinism theorems rest on -> S2T/Gen/Effects.lean
 
 1. setToOrdered   every place a set/frozenset-typed expression is turned into ordered output
-                  (list()/tuple()/join()/for-iteration/comprehension/pop/next(iter())); `sorted(...)`
-                  and membership tests are order-free and not listed.
+                  (list()/tuple()/join()/for-iteration/comprehension/pop/next(iter()), and
+                  sorted/min/max WITH a key function: ties keep the iteration order); plain
+                  `sorted(a_set)` and membership tests are order-free and not listed.
 2. observerEffects every write to shared state inside an observer method of a result / unit /
                   image / table class in data_types.py (attribute or subscript stores and mutating
                   method calls on objects reachable from `self`).
@@ -82,6 +83,10 @@ def gen_set_sites():
                     kind = n.func.id
                 elif isinstance(n, ast.Call) and isinstance(n.func, ast.Attribute) and n.func.attr == "join" and n.args and is_set_expr(n.args[0], names):
                     kind = "join"
+                elif isinstance(n, ast.Call) and isinstance(n.func, ast.Name) and n.func.id in ("sorted", "min", "max") and n.args \
+                        and is_set_expr(n.args[0], names) and any(k.arg == "key" for k in n.keywords):
+                    # sorted(a_set) is order free; sorted(a_set, key=f) is only if f is injective (ties keep iteration order)
+                    kind = n.func.id + "-key"
                 elif isinstance(n, ast.Call) and isinstance(n.func, ast.Attribute) and n.func.attr == "pop" and not n.args and is_set_expr(n.func.value, names):
                     kind = "set.pop"
                 elif isinstance(n, (ast.For, ast.comprehension)) and is_set_expr(n.iter, names):
